@@ -1,32 +1,30 @@
 /-
   Ark.Proofs.RelRefine2Reset — `Reset` in a world WITH relation components (properties C16 / C05
-  / C01): what is proved, and the one thing that is not.
+  / C01): `Reset` is a step of the machine of `Ark.Proofs.RelRefine2Machine`.
 
-  FINDING.  The joint invariant `TInv` of the relation fragment (`Ark.Proofs.TargetsInv`, on which
-  every specification theorem of `Ark.Proofs.RelSpecs` / `RelRefineSteps` rests) contains
-  `PLink.stale : w.pool.stale = []` — "there is no memory behind the pool slice".  `Reset`
-  truncates the pool slice and KEEPS that memory (`Pool.reset`: the invalidated handles move to
-  `stale`), so after a `Reset` of a world in which an entity was ever created `TInv` is false
-  (`reset_breaks_tinv`, with a concrete history), and `Reset` cannot be a step of a machine whose
-  invariant contains `TInv`.  (The relation-free machine `Ark.Refine` avoids this: its `CInv` only
-  demands that stale handles carry the sentinel generation.)  Repairing it means re-proving the
-  `Targets*` / `Rel*` development for the weaker link; no existing file may be edited here.
+  The joint invariant `TInv` of the relation fragment (`Ark.Proofs.TargetsInv`) does not demand
+  that the memory behind the pool slice is empty: `PLink.stale` only says that the handles kept
+  there carry the sentinel generation `maxU32` — which is what `Pool.reset` (the model of
+  `entityPool.Reset` after the repair of defect D14) establishes: it truncates the slice and KEEPS
+  the invalidated handles behind it.  (Until this was weakened — `PLink.stale` read
+  `pool.stale = []` — `TInv` was false after `new; reset`.)
 
-  PROVED (`step2_reset_partial`): on every state satisfying `HInv2`, `Reset` succeeds, the step
-  of the machine is `⟨resetW w, [], ⟨[], zst, isRel⟩⟩` (specification emptied, new epoch), and in
-  that state
-  * `TInvS (resetW w) []` — EVERY component of `TInv` except `pool.stale = []` (which is replaced
-    by "stale handles carry the sentinel generation"): `SInv`, `RInv`, targets, relation lists,
-    relation archetypes, `CacheRelsOK`, flags, free-empty, the index invariant, the pool
-    invariant, the index ↔ pool link, the registry bound;
+  PROVED (`step2_reset_spec`): on every state satisfying `HInv2`, `Reset` succeeds, the step of
+  the machine is `⟨resetW w, [], ⟨[], zst, isRel⟩⟩` (specification emptied, nothing issued: a new
+  epoch, as in `Ark.Refine`), and in that state
+  * `TInv (resetW w) []` (`tinv_reset`) — `SInv`, `RInv`, targets, relation lists, relation
+    archetypes, `CacheRelsOK`, flags, free-empty, the index invariant, the pool invariant, the
+    index ↔ pool link with the stale handles invalidated, the registry bound;
   * the ghost pool state of a new epoch, unlocked, no observers, the registry agreement;
-  * `FInvR (resetW w)` — the WHOLE filter-side invariant: the cache is empty (so `CacheInv`),
-    every filter object of the heap is unregistered and otherwise unchanged, `CIdx`, `RowsAlive`,
-    the lock's bit pool and the cache's ID pool start afresh;
-  * hence `HInv2` holds again whenever `pool.stale = []` afterwards.
+  * `FInvR (resetW w)` (`finvR_reset`) — the WHOLE filter-side invariant: the cache is empty (so
+    `CacheInv`), every filter object of the heap is unregistered and otherwise unchanged, `CIdx`,
+    `RowsAlive`, the lock's bit pool and the cache's ID pool start afresh;
+  * hence `HInv2 (step2 run s .reset) []` — `step2_reset`, the step lemma in the form of the
+    other steps (with `Grows`: no table, relation archetype or index slot is created);
+  * no handle of the ended epoch is alive (`ResetStepPost.dead`).
   Kernel-only proofs, core Lean only.
 -/
-import Ark.Proofs.RelRefine2Reach
+import Ark.Proofs.RelRefine2Shrink
 
 set_option autoImplicit false
 
@@ -35,40 +33,7 @@ namespace RelRefine2
 
 open World Ark.Props.C01World QueryRel QueryExact RelRefine
 
-/-! ## 1. the joint invariant up to the memory behind the pool slice -/
-
-/-- **everything `TInv w fl` says except `pool.stale = []`**; instead: the handles in the memory
-    behind the pool slice carry the sentinel generation -/
-structure TInvS (w : World) (fl : List Nat) : Prop where
-  rel : RelInv w
-  flags : FlagsOK w
-  freeEmpty : FreeEmpty w
-  idx : IdxInv w
-  pool : Pool.PInv w.pool fl
-  staleGen : ∀ e ∈ w.pool.stale, e.gen = maxU32
-  lenEq : w.entities.length = w.pool.ents.length
-  tgtLen : w.isTarget.length = w.entities.length
-  freeUnindexed : ∀ (i : Nat), i ∈ fl → ∃ (r : Nat), w.entities[i]? = some (maxU32, r)
-  reservedUnindexed : ∀ (i : Nat), i < 2 → ∃ (r : Nat), w.entities[i]? = some (maxU32, r)
-  liveIndexed : ∀ (i : Nat), 2 ≤ i → i < w.entities.length → i ∉ fl →
-    ∃ (t r : Nat), w.entities[i]? = some (t, r) ∧ t ≠ maxU32
-  fewTables : w.tables.length ≤ maxU32
-  kindsLe : w.kinds.length ≤ w.maxComps ∧ w.maxComps ≤ 256
-
-theorem _root_.Ark.TInv.toS {w : World} {fl : List Nat} (h : TInv w fl) : TInvS w fl :=
-  ⟨h.rel, h.flags, h.freeEmpty, h.link.idx, h.link.pool,
-    (by rw [h.link.stale]; intro e he; cases he),
-    h.link.lenEq, h.link.tgtLen, h.link.freeUnindexed, h.link.reservedUnindexed,
-    h.link.liveIndexed, h.link.fewTables, h.kindsLe⟩
-
-/-- with no memory behind the pool slice it is the joint invariant -/
-theorem TInvS.toTInv {w : World} {fl : List Nat} (h : TInvS w fl) (hs : w.pool.stale = []) :
-    TInv w fl :=
-  ⟨h.rel, h.flags, h.freeEmpty,
-    ⟨h.idx, h.pool, hs, h.lenEq, h.tgtLen, h.freeUnindexed, h.reservedUnindexed, h.liveIndexed,
-      h.fewTables⟩, h.kindsLe⟩
-
-/-! ## 2. the world after `Reset` -/
+/-! ## 1. the world after `Reset` -/
 
 theorem cacheReset_relationArchetypes (w : World) :
     w.cacheReset.relationArchetypes = w.relationArchetypes := by
@@ -105,9 +70,10 @@ theorem noRelCol {w : World} (hS : SInv w) {t : Nat} {T : Table} (hT : w.tables[
   rw [i2]
   exact (hS.astruct _ A hA).no_rel h0 i
 
-/-- **`Reset` re-establishes every component of the joint invariant except `pool.stale = []`** -/
-theorem tinvS_reset {w : World} {fl : List Nat} (h : TInv w fl) (hC : CacheInv w) :
-    TInvS (resetW w) [] := by
+/-- **`Reset` re-establishes the joint invariant** (free list empty; the handles of the ended
+    epoch stay behind the pool slice, invalidated) -/
+theorem tinv_reset {w : World} {fl : List Nat} (h : TInv w fl) (hC : CacheInv w) :
+    TInv (resetW w) [] := by
   have hS := h.rel.sinv
   have hI := h.link.idx
   have hFE := h.freeEmpty
@@ -179,24 +145,46 @@ theorem tinvS_reset {w : World} {fl : List Nat} (h : TInv w fl) (hC : CacheInv w
         rw [resetTblOf_isRel] at hi
         exact absurd hi (noRelCol hS hT0 hnr i)
       freeEmpty := FreeEmpty.resetW hS hI hFE
-      idx := hI'
-      pool := by rw [resetW_pool]; exact h.link.pool.reset
-      staleGen := by
-        rw [resetW_pool]
-        exact pool_reset_stale _ (by rw [h.link.stale]; intro e he; cases he)
-      lenEq := by
-        rw [hEl, resetW_pool]
-        show 2 = (w.pool.ents.take 2).length
-        rw [List.length_take]; omega
-      tgtLen := by
-        rw [hEl, resetW_isTarget, List.length_take, h.link.tgtLen, h.link.lenEq]; omega
-      freeUnindexed := fun i hi => by cases hi
-      reservedUnindexed := hres
-      liveIndexed := by intro i h2 hlt _; rw [hEl] at hlt; omega
-      fewTables := by rw [resetW_tables hS, List.length_map]; exact h.link.fewTables
+      link :=
+        { idx := hI'
+          pool := by rw [resetW_pool]; exact h.link.pool.reset
+          stale := by
+            rw [resetW_pool]
+            exact pool_reset_stale _ h.link.stale
+          lenEq := by
+            rw [hEl, resetW_pool]
+            show 2 = (w.pool.ents.take 2).length
+            rw [List.length_take]; omega
+          tgtLen := by
+            rw [hEl, resetW_isTarget, List.length_take, h.link.tgtLen, h.link.lenEq]; omega
+          freeUnindexed := fun i hi => by cases hi
+          reservedUnindexed := hres
+          liveIndexed := by intro i h2 hlt _; rw [hEl] at hlt; omega
+          fewTables := by rw [resetW_tables hS, List.length_map]; exact h.link.fewTables }
       kindsLe := by rw [resetW_kinds, (resetW_caps w).2.2]; exact h.kindsLe }
 
-/-! ## 3. the filter side after `Reset` -/
+/-- **after `Reset` no ID is indexed to a table**: no component set, no value, no relation
+    target can be read through the index -/
+theorem resetW_unindexed {w : World} {fl : List Nat} (h : TInv w fl) (i : Nat) :
+    compsOf (resetW w) i = none ∧ (∀ (c : Comp), valOf (resetW w) i c = none) ∧
+    ∀ (c : Comp), targetOf (resetW w) i c = none := by
+  have hlenP : 2 ≤ w.pool.ents.length := h.link.pool.len2
+  cases hx : (resetW w).entities[i]? with
+  | none => simp only [compsOf, valOf, targetOf, hx]; exact ⟨trivial, fun _ => trivial, fun _ => trivial⟩
+  | some p =>
+    obtain ⟨t, r⟩ := p
+    have hi : i < 2 := by
+      have := (List.getElem?_eq_some_iff.mp hx).1
+      rw [resetW_entities, List.length_take] at this; omega
+    obtain ⟨r', hr'⟩ := h.link.reservedUnindexed i hi
+    rw [resetW_entities, List.getElem?_take_of_lt hi, hr'] at hx
+    obtain ⟨rfl, rfl⟩ := Prod.mk.inj (Option.some.inj hx)
+    have hx' : (resetW w).entities[i]? = some (maxU32, r') := by
+      rw [resetW_entities, List.getElem?_take_of_lt hi]; exact hr'
+    simp only [compsOf, valOf, targetOf, hx', if_true]
+    exact ⟨trivial, fun _ => trivial, fun _ => trivial⟩
+
+/-! ## 2. the filter side after `Reset` -/
 
 /-- what `cache.Reset` does to the filter heap when it agrees with the cache: every filter
     object is unregistered; nothing else about it changes -/
@@ -292,12 +280,12 @@ theorem finvR_reset {w : World} {fl : List Nat} (h : FInvR w) (ht : TInv w fl) :
       rw [e] at hcache
       exact ⟨by rw [hcache]; rfl, fun id i hf => by rw [hcache] at hf; cases hf⟩
 
-/-! ## 4. `Reset` as a step: what holds afterwards -/
+/-! ## 3. `Reset` as a step -/
 
 /-- what the step `Reset` of the machine establishes, all of it — see the header -/
 structure ResetStepPost (s s' : St) : Prop where
   state : s' = ⟨resetW s.w, [], ⟨[], s.ss.zst, s.ss.isRel⟩⟩
-  tinvS : TInvS s'.w []
+  tinv : TInv s'.w []
   ginv : Pool.GInv s'.ps []
   unlocked : s'.w.isLocked = false
   noObs : ∀ (evt : Nat), s'.w.obs.hasObservers evt = false
@@ -308,22 +296,24 @@ structure ResetStepPost (s s' : St) : Prop where
   /-- every filter object is unregistered, the cache is empty -/
   unregistered : ∀ (f : Nat) (fo : FilterObj), AL.find? s'.w.filters f = some fo → fo.cache = none
   cacheEmpty : s'.w.cache.indices = [] ∧ s'.w.cache.filters = []
+  /-- no ID is indexed to a table -/
+  unindexed : ∀ (i : Nat), compsOf s'.w i = none ∧ (∀ (c : Comp), valOf s'.w i c = none) ∧
+    ∀ (c : Comp), targetOf s'.w i c = none
   /-- no handle of the ended epoch is alive -/
   dead : ∀ (h : Ent), 2 ≤ h.id → h.gen ≠ maxU32 → s'.w.alive h = false
-  /-- the one missing piece -/
-  restored : s'.w.pool.stale = [] → HInv2 s' []
+  /-- the invariant of the machine holds again, with an empty free list -/
+  hinv : HInv2 s' []
 
-/-- **`Reset` as a step of the relation machine, everything but `pool.stale = []`**
-    (`_partial`: the full statement would be `∃ fl', HInv2 (step2 run s .reset) fl'`; it fails
-    exactly on `TInv`'s component `pool.stale = []`, see `reset_breaks_tinv`) -/
-theorem step2_reset_partial (run : ProbeRunner) {s : St} {fl : List Nat} (H : HInv2 s fl) :
+/-- **`Reset` as a step of the relation machine**: the step, the world and the invariants
+    afterwards -/
+theorem step2_reset_spec (run : ProbeRunner) {s : St} {fl : List Nat} (H : HInv2 s fl) :
     ResetStepPost s (step2 run s .reset) := by
   have hl := H.base.unlocked
   have ht := H.base.tinv
   have hstep : step2 run s .reset = ⟨resetW s.w, [], ⟨[], s.ss.zst, s.ss.isRel⟩⟩ := by
     simp only [step2, opReset_eq s.w hl]
   rw [hstep]
-  have hts := tinvS_reset ht H.finv.cache
+  have hts := tinv_reset ht H.finv.cache
   have hfr := finvR_reset H.finv ht
   have hg : Pool.GInv (⟨resetW s.w, [], ⟨[], s.ss.zst, s.ss.isRel⟩⟩ : St).ps [] := by
     show Pool.GInv ⟨(resetW s.w).pool, [], []⟩ []
@@ -341,7 +331,7 @@ theorem step2_reset_partial (run : ProbeRunner) {s : St} {fl : List Nat} (H : HI
   have hm : (resetW s.w).maxComps = 256 := by rw [(resetW_caps s.w).2.2]; exact H.base.maxc
   exact
     { state := rfl
-      tinvS := hts
+      tinv := hts
       ginv := hg
       unlocked := hul
       noObs := hno
@@ -357,14 +347,15 @@ theorem step2_reset_partial (run : ProbeRunner) {s : St} {fl : List Nat} (H : HI
       cacheEmpty := by
         show (resetW s.w).cache.indices = [] ∧ (resetW s.w).cache.filters = []
         rw [resetW_cache]; exact cacheReset_empty H.finv.cache
+      unindexed := resetW_unindexed ht
       dead := by
         intro h h2 hgen
         show (resetW s.w).pool.alive h = false
         rw [resetW_pool]
-        exact Ark.Props.C02.reset_kills s.w.pool (by rw [ht.link.stale]; intro e he; cases he) h h2
+        exact Ark.Props.C02.reset_kills s.w.pool ht.link.stale h h2
           hgen
-      restored := fun hs =>
-        ⟨{ tinv := hts.toTInv hs
+      hinv :=
+        ⟨{ tinv := hts
            ginv := hg
            unlocked := hul
            noObs := hno
@@ -375,7 +366,28 @@ theorem step2_reset_partial (run : ProbeRunner) {s : St} {fl : List Nat} (H : HI
            ok := by intro e en hm'; cases hm'
            tgtsOK := by intro e en hm'; cases hm' }, hfr⟩ }
 
-/-! ## 5. the counterexample: `TInv` does not survive `Reset` -/
+/-- the former name of `step2_reset_spec` (it used to be partial: `HInv2` afterwards only under
+    `pool.stale = []`) -/
+theorem step2_reset_partial (run : ProbeRunner) {s : St} {fl : List Nat} (H : HInv2 s fl) :
+    ResetStepPost s (step2 run s .reset) := step2_reset_spec run H
+
+/-- **`Reset` keeps the invariant of the machine** — the step lemma in the form of the other
+    steps; `Reset` creates no table, no relation archetype and no index slot -/
+theorem step2_reset (run : ProbeRunner) {s : St} {fl : List Nat} (H : HInv2 s fl) :
+    (∃ fl', HInv2 (step2 run s .reset) fl') ∧ Grows s (step2 run s .reset) := by
+  have post := step2_reset_spec run H
+  refine ⟨⟨[], post.hinv⟩, ?_⟩
+  have hS := H.base.tinv.rel.sinv
+  rw [post.state]
+  refine ⟨?_, ?_, ?_⟩
+  · show (resetW s.w).tables.length ≤ _
+    rw [resetW_tables hS, List.length_map]; omega
+  · show (resetW s.w).relationArchetypes.length ≤ _
+    rw [resetW_relationArchetypes]; exact Nat.le_succ _
+  · show (resetW s.w).entities.length ≤ _
+    rw [resetW_entities, List.length_take]; omega
+
+/-! ## 4. a concrete history -/
 
 /-- no callbacks -/
 def noRun : ProbeRunner := fun _ _ _ => pure ()
@@ -383,18 +395,10 @@ def noRun : ProbeRunner := fun _ _ _ => pure ()
 /-- a history: one entity is created, then `Reset` -/
 def resetDemo : List Op2 := [.base (.new .unsafe_ [] [] []), .reset]
 
-/-- **the hypothesis `Reset`-free of `reach2_inv` cannot be dropped**: after the history
-    `new; reset` the pool keeps the invalidated handle `2.MaxUint32` behind its slice, so no free
-    list makes the joint invariant `TInv` (hence `HInv2`) true -/
-theorem reset_breaks_tinv :
-    (reach2 noRun 4 4 resetDemo).w.pool.stale = [⟨2, maxU32⟩] ∧
-    ¬ ∃ (fl : List Nat), TInv (reach2 noRun 4 4 resetDemo).w fl := by
-  have h1 : (reach2 noRun 4 4 resetDemo).w.pool.stale = [⟨2, maxU32⟩] := by decide +kernel
-  refine ⟨h1, ?_⟩
-  rintro ⟨fl, h⟩
-  have := h.link.stale
-  rw [h1] at this
-  cases this
+/-- after the history `new; reset` the pool keeps the invalidated handle `2.MaxUint32` behind its
+    slice -/
+theorem reset_keeps_stale :
+    (reach2 noRun 4 4 resetDemo).w.pool.stale = [⟨2, maxU32⟩] := by decide +kernel
 
 end RelRefine2
 end Ark
